@@ -143,19 +143,19 @@ def c14CollateSpect : Handler := fun c => do
     ("spec", objJ [("cut_feats", rows3J (Spec.cutBack b.feats b.featSizes)),
                    ("pad_ok", boolJ (Spec.padCellsOk padF b.feats b.featSizes))])])
 
-/-- case: {items: [{win: [[[..]..]..], ali: null | [..], id}]}. -/
+/-- case: {items: [{win: [[..]..] (one flattened window per row), ali: null | [..], id}]}. -/
 def c14CollateCw : Handler := fun c => do
   let items ← getList (fun j => do
-    let w ← field j "win" >>= jsonToList getRows
+    let w ← field j "win" >>= getRows
     let a ← match fieldOpt j "ali" with
       | none => pure none
       | some v => some <$> jsonToList jsonToInt v
     let i ← getStr j "id"
     pure (w, a, i)) c "items"
   let (ws, alis, sizes, ids) := cwCollate items
-  pure (objJ [("windows", rows3J ws), ("alis", optJ (listJ intJ) alis), ("sizes", listJ natJ sizes),
+  pure (objJ [("windows", rows2J ws), ("alis", optJ (listJ intJ) alis), ("sizes", listJ natJ sizes),
     ("ids", listJ strJ ids),
-    ("spec", objJ [("split", listJ rows3J (Spec.splitBySizes sizes ws))])])
+    ("spec", objJ [("split", listJ rows2J (Spec.splitBySizes sizes ws))])])
 
 /-- case: {feat: [[..]..], frame, left, right, reverse}. -/
 def c14Window : Handler := fun c => do
